@@ -366,7 +366,7 @@ def _ip_of_frame(frame):
     return None
 
 
-def mon_c04(k, domain, check_ip, offered, up_frames, wildcard=False, srv="srv"):
+def mon_c04(k, domain, check_ip, offered, up_frames, wildcard=False, srv="srv", server_tun_ip=None):
     """History monitors of C04 (the spoof differential is separate, in checks/c04.py):
     routing   - a packet for tunnel address A reaches only the session assigned A, which must have logged
                 in before the packet entered the server and be the slot's current holder;
@@ -402,6 +402,10 @@ def mon_c04(k, domain, check_ip, offered, up_frames, wildcard=False, srv="srv"):
             entered = offered[frame]["t"]
         elif frame in up_frames:
             entered = up_frames[frame]["t"]
+        if a is not None and server_tun_ip is not None and a == server_tun_ip:
+            # a packet addressed to the server's own tunnel address belongs on the server's tun, whatever the table says
+            bad("C04:packet-for-the-server-sent-to-a-session", "a packet for the server's own tunnel address %s was sent to slot %r" % (a, uid), ev, slot=uid)
+            return
         if s is None or s["login_t"] is None:
             bad("C04:delivered-to-session-not-logged-in", "a packet for %s was sent to slot %r, which is not logged in" % (a, uid), ev, slot=uid)
             return
